@@ -337,7 +337,7 @@ Section Leaf.
      except that the directories on the way exist. *)
   Lemma move_file_materialises_lemma : forall outrel fname fp n s,
     let outp := (ps ++ outrel) ++ [fname] in
-    fp <> [] -> clean_path fp ->
+    fp <> [] -> clean_path fp -> through_link s fp = false ->
     lk s fp = Some n -> (forall t, n <> NLink t) ->
     inside ps fp = true ->
     is_pfx fp outp = false -> is_pfx outp fp = false ->
@@ -353,7 +353,7 @@ Section Leaf.
       /\ (forall q, is_pfx q (ps ++ outrel) = true -> is_pfx ps q = true -> q <> ps ->
                     lk s' q = Some NDir).
   Proof.
-    intros outrel fname fp n s outp Hne Hclean Hlk Hnl Hin Hsd Hds Hfree Hdirs.
+    intros outrel fname fp n s outp Hne Hclean Hthru Hlk Hnl Hin Hsd Hds Hfree Hdirs.
     destruct (mkdirs_from_ok outrel ps s Hdirs) as (s1 & Emk & He & Hu & Hq & Hd).
     assert (Hs1 : forall q, is_pfx q (ps ++ outrel) = false -> lk s1 q = lk s q).
     { intros q Hq'. destruct (Hq q) as [E|(_ & _ & E & _)]; [exact E|congruence]. }
@@ -368,7 +368,7 @@ Section Leaf.
     exists (with_fs s1 f2).
     split.
     { unfold move_file. destruct (render_nonempty fp Hne) as (b & r & Er).
-      rewrite Er. rewrite <- Er. rewrite (parse_render fp Hne Hclean). rewrite Hlk.
+      rewrite Er. rewrite <- Er. rewrite (parse_render fp Hne Hclean). rewrite Hthru. rewrite Hlk.
       assert (Hbody :
         (let outdir := ps ++ outrel in
          let outp0 := outdir ++ [fname] in
@@ -426,29 +426,29 @@ Section Leaf.
   (* a file that does not exist (the stage did not create it), and the empty
      string, become null; nothing is touched *)
   Lemma move_file_missing_lemma : forall outrel fname fp s,
-    fp <> [] -> clean_path fp -> lk s fp = None ->
+    fp <> [] -> clean_path fp -> through_link s fp = false -> lk s fp = None ->
     lk s ((ps ++ outrel) ++ [fname]) = None ->
     move_file ps outrel fname (JStr (render fp)) s = (JNull, s).
   Proof.
-    intros outrel fname fp s Hne Hc Hlk Hout. unfold move_file.
+    intros outrel fname fp s Hne Hc Hthru Hlk Hout. unfold move_file.
     destruct (render_nonempty fp Hne) as (b & r & Er).
-    rewrite Er. rewrite <- Er. rewrite (parse_render fp Hne Hc). rewrite Hlk, Hout. reflexivity.
+    rewrite Er. rewrite <- Er. rewrite (parse_render fp Hne Hc). rewrite Hthru. rewrite Hlk, Hout. reflexivity.
   Qed.
 
   (* a file that is missing because an interrupted run already moved it to
      its place under outs/ (and was killed before linking it back): the link
      is made, the value names the place under outs/, nothing else changes *)
   Lemma move_file_resumes_lemma : forall outrel fname fp s n,
-    fp <> [] -> clean_path fp -> lk s fp = None ->
+    fp <> [] -> clean_path fp -> through_link s fp = false -> lk s fp = None ->
     lk s ((ps ++ outrel) ++ [fname]) = Some n ->
     lk s (dirname fp) = Some NDir ->
     let outp := (ps ++ outrel) ++ [fname] in
     move_file ps outrel fname (JStr (render fp)) s =
     (JStr (render outp), with_fs s (fs_set fp (NLink (rel_path (dirname fp) outp)) (fs s))).
   Proof.
-    intros outrel fname fp s n Hne Hc Hlk Hout Hdir outp. unfold move_file.
+    intros outrel fname fp s n Hne Hc Hthru Hlk Hout Hdir outp. unfold move_file.
     destruct (render_nonempty fp Hne) as (b & r & Er).
-    rewrite Er. rewrite <- Er. rewrite (parse_render fp Hne Hc). rewrite Hlk.
+    rewrite Er. rewrite <- Er. rewrite (parse_render fp Hne Hc). rewrite Hthru. rewrite Hlk.
     fold outp. unfold outp. rewrite Hout, Hdir. reflexivity.
   Qed.
 
@@ -547,6 +547,7 @@ Section Shape.
     destruct v as [| | |str| |]; try (right; left; reflexivity).
     destruct str as [|b r]; [left; reflexivity|].
     destruct (parse_abs (b :: r)) as [fp|]; [|right; left; reflexivity].
+    destruct (through_link s fp); [right; left; reflexivity|].
     assert (Hbody :
       let v' := fst (let outdir := ps ++ outrel in
          let outp := outdir ++ [fname] in
